@@ -2426,3 +2426,34 @@ def rule_A_RED_DERIVED(ctx, repo):
                          'names / uses another format than the original and misses what the original finds' % (lab, '/'.join(names), ', '.join(stale), lab, ', '.join(params[:k])),
                          wh(ci, x.lineno))
     ctx.ob('A-RED', 'instance attributes besides __state__ set by the constructors of pickled archive classes', True, n=n)
+
+
+def rule_A_ZSTREAM(ctx, repo):
+    """A-CODEC (zlib streaming protocol).  `Decompress.decompress(data, max_length)` returns at most max_length bytes and parks the input it did not consume in
+    `unconsumed_tail`; a loop that passes a max_length and never feeds `unconsumed_tail` back drops compressed input as soon as one block expands beyond the
+    cap - the stream position is lost and a larger compressed entry can no longer be read (dir_archive turns the error into KeyError: the stored result is gone).
+    One-shot `zlib.decompress(data, wbits, bufsize)` (today's form) is not affected: its third argument is a buffer size hint, not a cap."""
+    n = 0
+    for name in ('_pickle', '_archives'):
+        m = repo.mod(name)
+        for fn in [x for x in ast.walk(m.tree) if isinstance(x, ast.FunctionDef)]:
+            objs = set()
+            for x in ast.walk(fn):
+                if isinstance(x, ast.Assign) and len(x.targets) == 1 and isinstance(x.targets[0], ast.Name) and isinstance(x.value, ast.Call):
+                    f = x.value.func
+                    nm = f.attr if isinstance(f, ast.Attribute) else f.id if isinstance(f, ast.Name) else ''
+                    if nm == 'decompressobj':
+                        objs.add(x.targets[0].id)
+            for x in ast.walk(fn):
+                if isinstance(x, ast.Call) and isinstance(x.func, ast.Attribute) and x.func.attr == 'decompress' and isinstance(x.func.value, ast.Name) and x.func.value.id in objs:
+                    n += 1
+                    capped = len(x.args) >= 2 or any(k.arg == 'max_length' for k in x.keywords)
+                    feeds = any(isinstance(y, ast.Attribute) and y.attr == 'unconsumed_tail' for y in ast.walk(fn))
+                    ok = not capped or feeds
+                    ctx.ob('A-CODEC', '%s::%s streaming decompress keeps its input' % (m.rel, fn.name), ok)
+                    if not ok:
+                        ctx.fail('A-CODEC', '%s::%s' % (m.rel, fn.name), 'decompress(data, max_length) without unconsumed_tail',
+                                 '%s calls %s.decompress(%s) with an output cap and never reads unconsumed_tail: compressed input beyond what fits the cap is dropped, the next '
+                                 'block is fed at the wrong stream position, and an entry whose compressed form is longer than one block cannot be read back'
+                                 % (fn.name, x.func.value.id, ', '.join(unparse(a)[:20] for a in x.args)), '%s:%d' % (m.rel, x.lineno))
+    ctx.ob('A-CODEC', 'streaming decompress calls examined (none today: read_zfile decompresses in one shot)', True, n=max(n, 1))
